@@ -4,6 +4,7 @@ import PyTrie.Lemmas.ReadPartial
 import PyTrie.Lemmas.VersionsConsistent
 import PyTrie.Lemmas.WalkDRefines
 import PyTrie.Lemmas.WalkDRun
+import PyTrie.Lemmas.WalkDDefined
 import PyTrie.Props.C08
 /-! # C09 — a fog-guided walk finds everything, even while the trie changes
 
@@ -226,5 +227,13 @@ theorem raw_walk_finds_stable_and_sound (H : Bytes → Bytes) (hlen : ∀ b, (H 
       (∀ k v, (k, v) ∈ s'.met → ∃ e ∈ sched, v ≠ [] ∧ get e.t k = v) ∧
       (s'.fog = [] → ∀ k val, val ≠ [] → (∀ e ∈ sched, get e.t k = val) → (k, val) ∈ s'.met) :=
   crunDR_is_tree_run H hlen sched hok
+
+/-- **never stuck**: when every scheduled prefix is an unexplored prefix of the fog at that step (what `nearest_unknown` /
+    `nearest_right` return), the whole raw-level walk runs to the end of the schedule — no step raises, `explore` accepts
+    every description (real or simulated, from the current version or from a stale cached parent) -/
+theorem raw_walk_never_stuck (H : Bytes → Bytes) (hlen : ∀ b, (H b).length = 32) (sched : List StepT)
+    (hok : SchedOk H sched) (hfog : InFogRun H cstartD (sched.map StepT.toD)) :
+    ∃ s' : CState, crunDR H cstartD (sched.map StepT.toD) = .ok (some (toCD H s')) :=
+  crunDR_defined H hlen sched hok hfog
 
 end PyTrie.Props.C09
